@@ -84,6 +84,7 @@ type world struct {
 	violation     atomic.Value
 	mu            sync.Mutex
 	handled       []string
+	lastDump      string
 }
 
 func (w *world) fail(format string, a ...any) {
@@ -152,19 +153,40 @@ type gstate struct {
 	submitterInSend bool // the goroutine running submitLoop is parked in a channel send
 	moving          int  // goz goroutines that are running or runnable
 	workersInSend   int  // worker goroutines parked in a channel send (waiting for a slot inside the worker)
+	truncated       bool // the dump did not fit: no conclusion may be drawn
+	dump            string
+}
+
+func firstGozFrame(g string) string {
+	for _, l := range strings.Split(g, "\n") {
+		if strings.Contains(l, "golib/goz.") && !strings.HasPrefix(l, "created by") {
+			return strings.TrimSpace(l)
+		}
+	}
+	return "(only created-by frame)"
 }
 
 func goroutineState() (st gstate) {
-	buf := make([]byte, 1<<18)
+	buf := make([]byte, 1<<20)
 	n := runtime.Stack(buf, true)
+	st.truncated = n == len(buf)
 	for _, g := range strings.Split(string(buf[:n]), "\n\n") {
 		if !strings.Contains(g, "golib/goz.") {
 			continue
 		}
 		head := g[:strings.IndexByte(g+"\n", '\n')]
+		st.dump += head + " " + firstGozFrame(g) + "; "
+		// parked for good (until the harness or another function acts) only in these three situations;
+		// every other state - running, runnable, syscall, or waiting for some internal lock such as the
+		// stdout file lock inside the default panic handler - will change on its own
 		parked := false
-		for _, w := range []string{"[chan send", "[chan receive", "[semacquire", "[select", "[sync.WaitGroup.Wait", "[sync.Mutex.Lock"} {
-			parked = parked || strings.Contains(head, w)
+		switch {
+		case strings.Contains(head, "[chan receive") && strings.Contains(g, "(*world).body"):
+			parked = true // a function parked on its harness gate
+		case strings.Contains(head, "[chan send") && strings.Contains(g, "goz.(*Limiter).add"):
+			parked = true // waiting for a slot
+		case strings.Contains(g, "goz.(*Limiter).Wait") && (strings.Contains(head, "[semacquire") || strings.Contains(head, "[sync.WaitGroup.Wait") || strings.Contains(head, "[chan receive") || strings.Contains(head, "[select")):
+			parked = true // a caller of Wait
 		}
 		if strings.Contains(g, "c19.submitLoop") {
 			st.submitterInSend = strings.Contains(head, "[chan send")
@@ -216,7 +238,8 @@ func (w *world) waitQuiescent(total int) (submitterBlocked bool, err error) {
 			// returned may still be giving their slot back, launched functions may not have started yet
 			gs := goroutineState()
 			stable := atomic.LoadInt32(&w.started) == started && atomic.LoadInt32(&w.finished) == finished && atomic.LoadInt32(&w.blocked) == blocked && atomic.LoadInt32(&w.submitted) == submitted
-			if gs.moving == 0 && stable {
+			w.lastDump = gs.dump
+			if gs.moving == 0 && stable && !gs.truncated {
 				if done && atomic.LoadInt32(&w.submitterDone) == 1 {
 					return false, nil
 				}
@@ -226,7 +249,7 @@ func (w *world) waitQuiescent(total int) (submitterBlocked bool, err error) {
 			}
 		}
 		if time.Now().After(deadline) {
-			return false, inconclusive{fmt.Sprintf("no quiescent state within 20s (started %d finished %d blocked %d submitted %d of %d)", started, finished, blocked, submitted, total)}
+			return false, inconclusive{fmt.Sprintf("no quiescent state within 20s (started %d finished %d blocked %d submitted %d of %d); goroutines of the Limiter: %s", started, finished, blocked, submitted, total, w.lastDump)}
 		}
 		if spins < 200 {
 			runtime.Gosched()
@@ -291,7 +314,7 @@ func run(c limCase, r *pb.Rec) error {
 		if blockedSub {
 			// the submitter waits for a slot while nothing runs: every slot must be held by a parked task
 			if b := atomic.LoadInt32(&w.blocked); int(b) != n {
-				return fmt.Errorf("slot leak: the submitter is blocked in Limiter.Go although only %d of %d slots are held by running functions (submitted %d, finished %d)", b, n, atomic.LoadInt32(&w.submitted), atomic.LoadInt32(&w.finished))
+				return fmt.Errorf("slot leak: the submitter is blocked in Limiter.Go although only %d of %d slots are held by running functions (submitted %d, finished %d); goroutines of the Limiter: %s", b, n, atomic.LoadInt32(&w.submitted), atomic.LoadInt32(&w.finished), w.lastDump)
 			}
 			saturated = true
 		}
